@@ -13,6 +13,14 @@
 //	    instances, no state carried between calls;
 //	(4) every shipped .hsaco x kernel: sequential decode lands exactly on the
 //	    end of the code, and encode(FromInst(decode(w))) == w.
+//	(5) promotion relation (promo.go): for every VOP1 / VOP2 / VOPC opcode the
+//	    e32 and the e64 (VOP3) encoding of the same description decode, on one
+//	    decoder, to the same mnemonic and the same operand registers / widths -
+//	    per architecture, without any opcode table.
+//
+// The mnemonic and the operand widths a row must decode to come from the
+// manuals' tables of the decoder's architecture (manual.go), not from the
+// decoder; what the manuals do not cover is listed by name in the evidence.
 //
 // Work is split into parts; each part runs in a child process (a fatal error
 // inside the code under test kills only the child; the part is then re-run
@@ -68,10 +76,42 @@ type childOut struct {
 	seen     map[string]struct{} // class notes already written
 	perKey   map[string]int      // members written per class key (capped)
 	nontriv  []string
+	lists    map[string]map[string]struct{} // named lists for the evidence file (not judged rows, ...)
 }
 
 func newChildOut() *childOut {
-	return &childOut{rec: vlib.ChildRec(), counters: map[string]int64{}, distinct: map[string]map[string]struct{}{}, seen: map[string]struct{}{}, perKey: map[string]int{}}
+	o := newChildOutNoRec()
+	o.rec = vlib.ChildRec()
+	return o
+}
+
+// newChildOutNoRec: a sink for the development dump (nothing is written).
+func newChildOutNoRec() *childOut {
+	return &childOut{counters: map[string]int64{}, distinct: map[string]map[string]struct{}{}, seen: map[string]struct{}{}, perKey: map[string]int{},
+		lists: map[string]map[string]struct{}{}}
+}
+
+// note adds an item to a named list that ends up in the evidence file.
+func (o *childOut) note(list, item string) {
+	o.mu.Lock()
+	m := o.lists[list]
+	if m == nil {
+		m = map[string]struct{}{}
+		o.lists[list] = m
+	}
+	m[item] = struct{}{}
+	o.mu.Unlock()
+}
+
+func (o *childOut) inconclusive(reason string) {
+	if o.rec != nil {
+		o.rec.Inconclusive(reason)
+	}
+}
+
+type listNote struct {
+	List  string   `json:"list"`
+	Items []string `json:"items"`
 }
 
 func (o *childOut) count(name string, n int64) { o.mu.Lock(); o.counters[name] += n; o.mu.Unlock() }
@@ -110,7 +150,7 @@ func (o *childOut) class(key, member string, canonical bool, what string, witnes
 	if over {
 		o.count("violating_observations_beyond_record_cap", 1)
 	}
-	if dup || over {
+	if dup || over || o.rec == nil {
 		return
 	}
 	o.rec.Note("class", classNote{Key: key, Member: member, Canonical: canonical, What: what, Witness: witness})
@@ -127,7 +167,15 @@ func (o *childOut) flush() {
 			o.rec.Distinct(s, k)
 		}
 	}
-	o.rec.Note("evals", o.counters["rt_patterns"]+o.counters["tot_inputs"]+o.counters["corpus_instructions"]+o.counters["mix_sequence_checks"])
+	for l, m := range o.lists {
+		items := make([]string, 0, len(m))
+		for k := range m {
+			items = append(items, k)
+		}
+		sort.Strings(items)
+		o.rec.Note("list", listNote{List: l, Items: items})
+	}
+	o.rec.Note("evals", o.counters["rt_patterns"]+o.counters["promo_pairs"]+o.counters["tot_inputs"]+o.counters["corpus_instructions"]+o.counters["mix_sequence_checks"])
 	for i := 0; i < len(o.nontriv); i += 500 {
 		j := i + 500
 		if j > len(o.nontriv) {
@@ -164,6 +212,9 @@ func main() {
 		runChild()
 		return
 	}
+	if os.Getenv("VERIF_C04_DUMPROWS") != "" {
+		dumpRows() // development aid: decoder rows next to the manuals' names
+	}
 	c := vlib.Start(propID)
 	scratch, cleanup := vlib.Scratch("c04")
 	defer cleanup()
@@ -184,6 +235,9 @@ func main() {
 	for arch := 0; arch < 2; arch++ {
 		parts = append(parts, part{Kind: "mix", Arch: arch, N: c.N(3, 30)})
 	}
+	for arch := 0; arch < 2; arch++ {
+		parts = append(parts, part{Kind: "promo", Arch: arch, N: c.N(2, 40)})
+	}
 	const corpusGroups = 8
 	for g := 0; g < corpusGroups; g++ {
 		parts = append(parts, part{Kind: "corpus", Sub: g, Of: corpusGroups})
@@ -198,6 +252,7 @@ func main() {
 	}
 	var mu sync.Mutex
 	classes := map[string]*agg{}
+	lists := map[string]map[string]struct{}{}
 	addClass := func(n classNote) {
 		mu.Lock()
 		defer mu.Unlock()
@@ -234,6 +289,22 @@ func main() {
 				var n classNote
 				if json.Unmarshal(b, &n) == nil && n.Key != "" {
 					addClass(n)
+				}
+			}
+			for _, v := range notes["list"] {
+				b, _ := json.Marshal(v)
+				var l listNote
+				if json.Unmarshal(b, &l) == nil && l.List != "" {
+					mu.Lock()
+					m := lists[l.List]
+					if m == nil {
+						m = map[string]struct{}{}
+						lists[l.List] = m
+					}
+					for _, it := range l.Items {
+						m[it] = struct{}{}
+					}
+					mu.Unlock()
 				}
 			}
 			for _, v := range notes["evals"] {
@@ -320,20 +391,42 @@ func main() {
 		classList = append(classList, map[string]any{"key": k, "fingerprint": fp, "what": a.what, "members": shown, "member_count": len(all), "observations": a.n})
 	}
 	c.Set("violation_classes", classList)
+	// what was *not* judged, by name: rows without an opcode-table entry in the
+	// manuals, rows judged by the other architecture's manual, rows whose widths
+	// the rule set does not model, promotions without a row, manual opcodes the
+	// simulator has no row for
+	listNames := make([]string, 0, len(lists))
+	for l := range lists {
+		listNames = append(listNames, l)
+	}
+	sort.Strings(listNames)
+	for _, l := range listNames {
+		items := make([]string, 0, len(lists[l]))
+		for it := range lists[l] {
+			items = append(items, it)
+		}
+		sort.Strings(items)
+		c.Set("list_"+l, items)
+		c.Count("listed_"+l, int64(len(items)))
+	}
 
 	c.Finish(vlib.FinishOpts{
 		Rule: "a round trip = one (architecture, format, opcode row, operand/modifier pattern) description encoded by gcnasm, decoded by the real " +
 			"Disassembler and compared field by field (plus printing, second instance, junk suffix, exact-length buffer); non-trivial = distinct " +
-			"(arch/format/opcode, pattern) whose decode returned an instruction or a classified failure; totality inputs and corpus kernels are counted in events",
+			"(arch/format/opcode, pattern) whose decode returned an instruction or a classified failure; the decoded mnemonic of every row is compared with the manual's; " +
+			"a promotion pair = the e32 and the e64 encoding of one VOP1 / VOP2 / VOPC description decoded by one decoder and compared with each other (mnemonic, operand registers, widths); " +
+			"totality inputs and corpus kernels are counted in events",
 		Assumptions: []string{
 			"the encoder vlib/gcnasm (written from docs/cdna3_insts.pdf ch.13 and the GCN3 manual ch.13) is the reference for bit positions; it is itself cross-checked by re-encoding all shipped kernels",
-			"operand widths are derived from the manuals' mnemonics; rows whose simulator mnemonic differs from both manuals' mnemonic for that opcode number are not width-checked (counted as rows_name_mismatch)",
-			"supported instruction = row of the decoder's own table (found by probing every opcode value of every format)",
+			"expected mnemonic and operand widths of an opcode come from the opcode tables of the manuals of the architecture the decoder is configured for (gcnasm name tables + WidthsOf), never from the decoder's table and never from the other architecture's column; VOP3 opcodes below 448 are the e64 forms of VOPC / VOP2 / VOP1 (opcode, 256 + opcode, 320 + opcode) and take the name of that architecture's VOPC / VOP2 / VOP1 table (Table 84 of the CDNA3 manual prints the VOP1 promotions at 384 + opcode; modulo that offset it repeats the VOP1 table, counter manual_cdna3_table84_vop1_promotions_consistent)",
+			"spellings accepted as the same mnemonic: case, _e32/_e64/_sdwa/_dpp suffix, surrounding blanks, integer-compare synonyms lg = ne and tru = t (the GCN3 manual itself uses LG / TRU in its compare-operation table), GFX9's _co renames of v_addc/v_subb/v_subbrev_u32 - and only when the architecture's manual does not give the decoder's spelling to another opcode (counter rt_names_documented_rename)",
+			"rows of the shared decode table whose opcode the configured architecture's manual does not define are judged by the other architecture's manual (list_judged_by_other_arch); rows neither manual names are round-tripped without a name / width expectation (list_not_judged); rows whose widths the rule set does not model: list_widths_not_modelled; manual opcodes without a decoder row: list_manual_opcodes_without_row",
+			"supported instruction = row of the decoder's own table (found by probing every opcode value of every format); in addition the e64 encoding of a VOP1 / VOP2 / VOPC instruction that decodes in its e32 encoding and that the architecture's manual defines must decode too (the literal-K opcodes v_madmk / v_madak have no e64 form)",
 			"explicit panics matching 'not implemented|not supported' are accepted diagnostics; only runtime errors (nil dereference, index/slice bounds) and process death count as faults",
 		},
 		MinNontrivial: 20000,
 		MinCounters: map[string]int64{
-			"rt_rows": 1500, "rt_decodes": 60000, "tot_inputs": 150000, "tot_outcome_inst": 10000, "tot_outcome_error": 10000,
+			"rt_rows": 1500, "rt_rows_width_checked": 1900, "rt_names_compared": 1900, "promo_opcodes_compared": 600, "promo_pairs_compared": 2500, "rt_decodes": 60000, "tot_inputs": 150000, "tot_outcome_inst": 10000, "tot_outcome_error": 10000,
 			"corpus_kernels": 120, "corpus_bytes_consumed": 200000, "suffix_checks": 50000, "instance_checks": 100000, "sequence_checks": 100000, "mix_sequence_checks": 20000,
 		},
 	})
